@@ -296,17 +296,31 @@ func (resp *HTTPResponse) Compress() (err error) {
 	return
 }
 
+// isAcceptEncoding check whether the coding is listed in the accept encoding header,
+// the codings are compared as tokens(case-insensitive), not as substring,
+// otherwise "pack200-gzip" is treated as "gzip"
+func isAcceptEncoding(acceptEncoding, coding string) bool {
+	for _, item := range strings.Split(acceptEncoding, ",") {
+		// 忽略参数(如 q=0.8)
+		name := strings.TrimSpace(strings.SplitN(item, ";", 2)[0])
+		if strings.EqualFold(name, coding) {
+			return true
+		}
+	}
+	return false
+}
+
 func (resp *HTTPResponse) getBodyByAcceptEncoding(acceptEncoding string) (encoding string, body []byte, err error) {
 	compressSrv := compress.Get(resp.CompressSrv)
 
 	// 如果支持br，而且br有数据
-	acceptBr := strings.Contains(acceptEncoding, compress.EncodingBrotli)
+	acceptBr := isAcceptEncoding(acceptEncoding, compress.EncodingBrotli)
 	if acceptBr && len(resp.BrBody) != 0 {
 		return compress.EncodingBrotli, resp.BrBody, nil
 	}
 
 	// 如果支持gzip，而且gzip有数据
-	acceptGzip := strings.Contains(acceptEncoding, compress.EncodingGzip)
+	acceptGzip := isAcceptEncoding(acceptEncoding, compress.EncodingGzip)
 	if acceptGzip && len(resp.GzipBody) != 0 {
 		return compress.EncodingGzip, resp.GzipBody, nil
 	}
